@@ -239,7 +239,7 @@ class Run:
         b.count("neighbour_audits")
         if [e.watch for e in self.obs2.emitters] != [self.w_other] or not all(e.is_alive() for e in self.obs2.emitters):
             errs.append(("neighbour-observer-affected", f"the second observer's emitters are now {[e.watch for e in self.obs2.emitters]} (alive: {[e.is_alive() for e in self.obs2.emitters]})"))
-        else:
+        elif self.marker_n % 3 == 0:  # (the marker round trip through the neighbour's dispatcher every third audit: it costs a drain)
             self.marker_n += 1
             ev2 = _FME(f"/marker/other/{self.marker_n}")
             n_before = len(self.h_other.calls)
@@ -249,6 +249,8 @@ class Run:
                 stray = [n for n, h in self.h.items() if any(e is ev2 for _, e, _ in h.calls)]
                 if got2 != 1 or stray:
                     errs.append(("neighbour-observer-affected", f"an event of the second observer reached its own handler {got2} time(s) and handlers of the first one: {stray}"))
+        else:
+            self.marker_n += 1
         if ref.state == "running" and obs.is_alive():
             from watchdog.events import FileModifiedEvent
 
